@@ -14,10 +14,10 @@ GUARD_REWRITES = [
     # below goes through auto-(de)ref and reads the same
     ('let env = & mut RedirGuard :: new ( env ) ;', 'let mut env = RedirGuard::new(env);'),
     ('xtrace . as_mut ( )', 'verif_as_mut(&mut xtrace)', '*'),
-    ('e . handle ( env )', 'e.handle(env.env)'),
-    ('env . push_context ( Context :: Volatile )', 'env.env.push_context(Context::Volatile)'),
-    ('perform_assignments ( & mut env ,', 'perform_assignments(env.env,'),
-    ('print ( & mut env , xtrace )', 'print(env.env, xtrace)'),
+    ('e . handle ( env )', 'e.handle(env.env)', '*'),
+    ('env . push_context ( Context :: Volatile )', 'env.env.push_context(Context::Volatile)', '*'),
+    ('perform_assignments ( & mut env ,', 'perform_assignments(env.env,', '*'),
+    ('print ( & mut env , xtrace )', 'print(env.env, xtrace)', '*'),
 ]
 RC = 'final(env).verif_rcalls@'
 AC = 'final(env).verif_acalls@'
